@@ -8,112 +8,112 @@ ALL = [f"C{i:02d}" for i in range(1, 21)]
 CHECKS = {
  "C02": ("grammar-based property testing (proptest strategies over a typed control-flow AST, structural shrinking), differential oracle vs bash 5.2.15",
          "Generated-program search: thousands of distinct programs from the control-flow grammar (quick) / tens of thousands at greater depth (thorough), each run under brush and bash in identical sandboxes; stdout trace of marker leaves and $? probes plus exit status compared exactly. Exploration, not proof: holds on the programs generated.",
-         "bash 5.2.15 is the reference for 'bash'; statuses limited to {0,1,2,77,255}; programs in listed known-finding classes are counted and skipped", "DESIGN.md §3 C02"),
+         "bash 5.2.15 is the reference for 'bash'; statuses limited to {0,1,2,77,255}; programs in listed known-finding classes are counted and skipped", "DESIGN.md §3 C02 (design) and §8 (as built)"),
 }
 
 CHECKS.update({
  "C03": ("grammar-based property testing (C02 grammar + option toggles, pipelines, substitutions, eval, nounset leaves), differential oracle vs bash 5.2.15",
          "Generated-program search over the control-flow grammar extended with set -e/-u/pipefail/inherit_errexit/errtrace toggles at arbitrary positions, failing leaves everywhere and unset-parameter expansion leaves, under every initial option combination; last marker before exit and exit status compared with bash. Exploration.",
-         "bash 5.2.15 reference; exit status compared zero/non-zero when bash stops on an unbound variable (5.2 uses 127); ERR-trap firing is not compared here (C16 covers traps)", "DESIGN.md §3 C03"),
+         "bash 5.2.15 reference; exit status compared zero/non-zero when bash stops on an unbound variable (5.2 uses 127); ERR-trap firing is not compared here (C16 covers traps)", "DESIGN.md §3 C03 (design) and §8 (as built)"),
  "C08": ("bounded-exhaustive enumeration + grammar-based property testing against a reference glob matcher (in process), mismatches confirmed against bash; differential testing of shell contexts and pathname expansion",
          "All patterns up to length 3 (quick) / 5 (thorough) over a 9-symbol alphabet x all subjects up to length 3/4, all short extglob patterns, 20k+ grammar-generated well-formed patterns, each decided by the harness's reference matcher with bash as arbiter; plus case/[[ ]]/${s#p} contexts and pathname expansion on generated trees vs bash. Exhaustive within the stated bounds (evidence marks which layers), exploration beyond.",
-         "reference matcher trusted only where bash agrees (every mismatch re-checked against bash; 1/97 of agreeing pairs cross-checked); LC_ALL=C.utf8; collation-dependent ranges excluded", "DESIGN.md §3 C08"),
+         "reference matcher trusted only where bash agrees (every mismatch re-checked against bash; 1/97 of agreeing pairs cross-checked); LC_ALL=C.utf8; collation-dependent ranges excluded", "DESIGN.md §3 C08 (design) and §8 (as built)"),
  "C19": ("bounded-exhaustive enumeration + random fragment concatenation, invariant oracle (in process)",
          "Every line over a 22-symbol metacharacter alphabet up to length 3 (quick) / 5 (thorough) and 10^5-10^6 random concatenations of shell fragments, each with every cursor on a character boundary, checked against the tiling invariant (ordered, contiguous, char-aligned spans covering the line; concatenation reproduces it; no panic). Exhaustive within the length bound, exploration beyond.",
-         "highlighter called on a clone of a default Shell with default builtins; debug assertions on", "DESIGN.md §3 C19"),
+         "highlighter called on a clone of a default Shell with default builtins; debug assertions on", "DESIGN.md §3 C19 (design) and §8 (as built)"),
 })
 
 CHECKS.update({
  "C07": ("grammar-based property testing of expression trees against a reference evaluator (in process, bash as arbiter) + differential testing of the shell contexts",
          "60k (quick) / 2M (thorough) generated expression trees, each rendered with minimal and with redundant parentheses, evaluated by brush's parser+evaluator in process and compared (value and all variables afterwards) with the harness's wrapping-i64 evaluator; mismatches and a 1/61 sample arbitrated by bash. The same trees through $(( )), (( )), let, substring offsets, subscripts, for((;;)) and declare -i vs bash. Exploration.",
-         "reference evaluator believed only where bash 5.2.15 agrees; x86-64 shift semantics; variables' contents limited to literals, names and `a op b`", "DESIGN.md §3 C07"),
+         "reference evaluator believed only where bash 5.2.15 agrees; x86-64 shift semantics; variables' contents limited to literals, names and `a op b`", "DESIGN.md §3 C07 (design) and §8 (as built)"),
 })
 
 CHECKS.update({
  "C14": ("grammar-based property testing with a round-trip oracle (parse -> print -> parse -> print, in process) + process-level re-import of declare -f/type/export -f text into brush and bash",
          "30k (quick) / 600k (thorough) generated function bodies covering every compound command, redirect kinds and counts, here-strings, process substitutions, nested functions etc.: printed text must re-parse to the same AST (locations erased) and print to the same text; 400/8000 generated functions are printed by the running shell and re-read by a fresh brush and by bash, behaviour compared. Exploration.",
-         "bodies brush's own parser rejects are outside the property; `{Fd:n}` vs `{Duplicate:\"n\"}` redirect targets and the position of redirects on command-word-less simple commands are treated as equal ASTs", "DESIGN.md §3 C14"),
+         "bodies brush's own parser rejects are outside the property; `{Fd:n}` vs `{Duplicate:\"n\"}` redirect targets and the position of redirects on command-word-less simple commands are treated as equal ASTs", "DESIGN.md §3 C14 (design) and §8 (as built)"),
  "C20": ("bounded-exhaustive enumeration of operation sequences + random sequences against an executable model (in process)",
          "All sequences of up to 5 (quick) / 6 (thorough) operations over add/save/new-session/delete/clear/toggle-timestamps plus random longer ones, driven through the Shell/History API on a real file; file bytes and reloaded history compared with a model written from the property after every step. Exhaustive within the length bound.",
-         "driven through the library API (Shell::add_to_history/save_history, fresh interactive Shell on the same HISTFILE), not through a terminal; timestamps compared as present/absent", "DESIGN.md §3 C20"),
+         "driven through the library API (Shell::add_to_history/save_history, fresh interactive Shell on the same HISTFILE), not through a terminal; timestamps compared as present/absent", "DESIGN.md §3 C20 (design) and §8 (as built)"),
 })
 
 CHECKS.update({
  "C04": ("bounded-exhaustive enumeration + dictionary-based random generation of adversarial values, model oracle (expected argv / file bytes computed by the harness, validated against bash on every case)",
          "Every value of length <= 2 (quick) / 3 (thorough) over a 32-symbol adversarial alphabet under 8 IFS/glob-option configurations, plus thousands of random concatenations of injection canaries, braces, tildes and nested expansions; each value is injected through the environment and $1 and pushed through ~30 quoting contexts whose expected argv and file bytes the harness computes. Exhaustive within the length bound, exploration beyond.",
-         "values without NUL; custom IFS characters limited to ASCII characters that do not occur in the literal words of the check script (brush also splits literal text at non-whitespace IFS characters: documented upstream gap, outside C04/C05)", "DESIGN.md §3 C04"),
+         "values without NUL; custom IFS characters limited to ASCII characters that do not occur in the literal words of the check script (brush also splits literal text at non-whitespace IFS characters: documented upstream gap, outside C04/C05)", "DESIGN.md §3 C04 (design) and §8 (as built)"),
 })
 
 CHECKS.update({
  "C05": ("grammar-based property testing of unquoted words (piece grammar x variable environment x IFS x directory tree), differential oracle vs bash 5.2.15",
          "2.5k (quick) / 50k (thorough) generated cases of 3-6 words each, every word evaluated in four contexts (set --, command argument, for list, array literal) under five IFS settings against a fixed tree; argument count, order and contents compared with bash via a length-prefixed dump. Exploration.",
-         "whitespace IFS only (stated domain); bash 5.2.15 reference; a literal `:` directly after a tilde prefix is kept out of the generated words (bash's own rule there depends on quoting later in the word)", "DESIGN.md §3 C05"),
+         "whitespace IFS only (stated domain); bash 5.2.15 reference; a literal `:` directly after a tilde prefix is kept out of the generated words (bash's own rule there depends on quoting later in the word)", "DESIGN.md §3 C05 (design) and §8 (as built)"),
 })
 
 CHECKS.update({
  "C06": ("grammar-based property testing of (value, operator, operand) triples, differential oracle vs bash 5.2.15; prefix/suffix removal additionally against the harness's reference matcher",
          "4k (quick) / 60k (thorough) generated batches of 8-14 parameter expansions over scalars, positional parameters, indexed (dense and sparse) and associative arrays, unset/null/declared-unset variables, every operator family of the statement, quoted and unquoted, with and without nounset; output, exit status and stderr emptiness compared with bash; ${v#p} ${v##p} ${v%p} ${v%%p} with literal patterns also checked against the property's own definition. Exploration.",
-         "bash 5.2.15 reference; kept out of the generated domain because bash itself is irregular there: patterns that can match the empty string in ${p/pat/rep}, negative lengths on arrays/positional parameters, ${@@A}/${a[@]@A}, @Q/@A text of values containing single quotes (round-trip is C13's subject), locale-dependent classes on non-ASCII values", "DESIGN.md §3 C06"),
+         "bash 5.2.15 reference; kept out of the generated domain because bash itself is irregular there: patterns that can match the empty string in ${p/pat/rep}, negative lengths on arrays/positional parameters, ${@@A}/${a[@]@A}, @Q/@A text of values containing single quotes (round-trip is C13's subject), locale-dependent classes on non-ASCII values", "DESIGN.md §3 C06 (design) and §8 (as built)"),
 })
 
 CHECKS.update({
  "C09": ("history-style property testing: generated action sequences with a state probe after every step, differential oracle vs bash 5.2.15, plus a readonly invariant over the trace",
          "6k (quick) / 80k (thorough) generated programs of declare/local/export/readonly/unset/assignment/+=/element assignment/for/read/printf -v/(( ))/${v:=}/getopts/mapfile actions with function calls to depth 3 and temporary-assignment prefixes on builtins, eval, functions and an external child; `declare -p` of all tracked names and the child's environment compared with bash after every action; a tail of writer attacks on a readonly name checked against the invariant that its declare line never changes. Exploration.",
-         "bash 5.2.15 reference; temporary assignments are placed on reader functions only and readonly attacks run at top level only (what a callee that writes a temporarily assigned or readonly name leaves behind, and how far a failed assignment unwinds, differ between bash modes); -l with -u never combined", "DESIGN.md §3 C09"),
+         "bash 5.2.15 reference; temporary assignments are placed on reader functions only and readonly attacks run at top level only (what a callee that writes a temporarily assigned or readonly name leaves behind, and how far a failed assignment unwinds, differ between bash modes); -l with -u never combined", "DESIGN.md §3 C09 (design) and §8 (as built)"),
 })
 
 CHECKS.update({
  "C10": ("grammar-based property testing of redirection lists and here-documents with an external descriptor probe, differential oracle vs bash 5.2.15",
          "2.5k (quick) / 50k (thorough) programs of 2-5 commands, each one of 11 carrier kinds with 1-4 redirections over all operators and descriptors 0-9, with/without noclobber, probed from an external process inside and after the command; 2k/40k here-document cases (near-miss delimiter lines, tabs, expansions, delimiter forms, several per line, in substitutions/functions/loops/pipelines). stdout, tagged stderr lines, status and every file compared with bash. Exploration.",
-         "bash 5.2.15 reference; diagnostics are not compared, and a file that received a diagnostic (because stderr was redirected into it) is not compared; byte offsets are not compared; N>&N on a closed N and `<<-` bodies with backslash-continued lines are kept out", "DESIGN.md §3 C10"),
+         "bash 5.2.15 reference; diagnostics are not compared, and a file that received a diagnostic (because stderr was redirected into it) is not compared; byte offsets are not compared; N>&N on a closed N and `<<-` bodies with backslash-continued lines are kept out", "DESIGN.md §3 C10 (design) and §8 (as built)"),
 })
 
 CHECKS.update({
  "C16": ("grammar-based property testing over termination paths x contexts x trap histories x handler kinds x front-ends; differential oracle vs bash 5.2.15 plus an exactly-once/last-line/status invariant on brush's own output",
          "3k (quick) / 60k (thorough) generated programs from the control-flow grammar with EXIT-trap manipulations and terminating leaves at arbitrary positions, delivered as file, -c and stdin; stdout and status compared with bash, and the plain handler's marker line checked to appear at most once, last, with the process status. 1.5k/30k ERR-handler programs probing $? after every command. Exploration.",
-         "bash 5.2.15 reference; status after an expansion error compared zero/non-zero (5.2 uses 127); EXIT traps manipulated inside subshells are outside the statement; a syntax error inside eval ends a non-interactive brush (POSIX behaviour) while bash continues - that leaf is not generated", "DESIGN.md §3 C16"),
+         "bash 5.2.15 reference; status after an expansion error compared zero/non-zero (5.2 uses 127); EXIT traps manipulated inside subshells are outside the statement; a syntax error inside eval ends a non-interactive brush (POSIX behaviour) while bash continues - that leaf is not generated", "DESIGN.md §3 C16 (design) and §8 (as built)"),
 })
 
 CHECKS.update({
  "C18": ("metamorphic property testing (brush against itself): a generated command sequence with fault leaves is run N times in one process; resource probes and per-iteration output after N runs must equal those after 1",
          "2.5k (quick) / 30k (thorough) sequences from the control-flow grammar with ~50 fault and resource leaves (failing redirects on every carrier, unknown commands, readonly and temporary assignments, failing functions/sourced files/recursion, process substitutions, background jobs, exec redirections), run 2..50 (quick) / 500 (thorough) times as repeated text, function body, eval or source; open descriptors and zombies read from /proc by an external helper, ${#FUNCNAME[@]}, ${#BASH_SOURCE[@]}, $#, temp-variable visibility, directory stack, `local` failing at top level, and every iteration's stdout/stderr compared with the first. Exploration.",
-         "a failure is reported only when bash satisfies the same relation on the same script and the failure reproduces in a second run; counts are sampled until stable", "DESIGN.md §3 C18"),
+         "a failure is reported only when bash satisfies the same relation on the same script and the failure reproduces in a second run; counts are sampled until stable", "DESIGN.md §3 C18 (design) and §8 (as built)"),
 })
 
 CHECKS.update({
  "C15": ("metamorphic property testing over delivery modes (brush against itself, guarded by bash), differential testing of stdin prefixes vs bash 5.2.15, and in-process sequence testing of the parse caches against history-free references",
          "1.5k (quick) / 25k (thorough) multi-line programs (continuations, here-documents, multi-line strings, comments, blank lines, $LINENO probes incl. inside eval and $( )) each delivered as file, -c, source, eval and stdin and required to give one stdout/status; 3k/50k line-prefixes of such programs fed on stdin from a file or a pipe (with commands that read the script's own input) compared with bash on what ran and success/failure; 40k/600k sequences of memoised tokenizer/program/word/arithmetic/pattern calls re-issuing texts under other option sets in one long-lived multi-threaded process, each result compared with its uncached twin or with a table from fresh processes. Exploration.",
-         "bash 5.2.15 reference; the delivery relation is asserted only for texts that bash -n accepts and for which bash itself prints the same for all five deliveries; top-level `return` is not generated (it legitimately differs between file and source); here-documents inside $( ) are kept out (bash 5.2 re-parses them wrongly)", "DESIGN.md §3 C15"),
+         "bash 5.2.15 reference; the delivery relation is asserted only for texts that bash -n accepts and for which bash itself prints the same for all five deliveries; top-level `return` is not generated (it legitimately differs between file and source); here-documents inside $( ) are kept out (bash 5.2 re-parses them wrongly)", "DESIGN.md §3 C15 (design) and §8 (as built)"),
 })
 
 CHECKS.update({
  "C12": ("metamorphic property testing (brush against itself, bash as a validity guard): full parent-state dump before and after a generated mutator sequence runs in a subshell context must be equal",
          "5k (quick) / 80k (thorough) sequences of 1-6 state mutators out of ~70 (every kind of assignment, unset/export/readonly, functions, set/shopt, aliases, traps, cd/pushd, positional parameters, exec redirections, exit/return/break/continue, completion specs; rarely umask/ulimit) in 16 subshell contexts (( ), $( ), backquotes, pipeline stages, background job, <( ), >( ), coproc, function in ( ), nested, and the same inside parent loops), optionally with concurrent parent activity; declare -p/-f, $-, set -o, shopt, alias, trap -p, pwd, dirs, umask, ulimit -a, $@, complete -p and an external child's view of descriptors, umask, rlimits, cwd and environment compared before/after, and the parent's own marker commands must all run. Exploration.",
-         "bash 5.2.15 used as a guard only: a failure is reported only when bash keeps its own dumps equal on the same script; names the shell itself changes (RANDOM, _, PIPESTATUS, BASH_CMDS ...) are filtered from the dump", "DESIGN.md §3 C12"),
+         "bash 5.2.15 used as a guard only: a failure is reported only when bash keeps its own dumps equal on the same script; names the shell itself changes (RANDOM, _, PIPESTATUS, BASH_CMDS ...) are filtered from the dump", "DESIGN.md §3 C12 (design) and §8 (as built)"),
 })
 
 CHECKS.update({
  "C13": ("round-trip property testing: brush prints each value in 14 quoting forms, brush and bash eval the text, and the recreated value/keys/attributes must equal the original; exhaustive over short strings plus random long ones",
          "all strings up to length 2 (quick, 1641) / 3 (thorough, 65641) over a 40-character alphabet of quoting-relevant characters plus 4k/60k random strings of 3-40 characters, each through printf %q (bare and in a longer format), ${v@Q}, ${v@A}, declare -p (scalar, exported, sparse indexed array, associative key and element), set, export -p, alias, trap -p, xtrace of an argument and of an assignment; read back by brush and by bash 5.2.15 and compared byte-wise (alias/trap: the reader's listing after eval vs after defining the original directly). Exhaustive up to the bound, exploration beyond.",
-         "a mismatch counts only if the same form and value round-trips with bash on both sides; values are valid UTF-8 without NUL; bash 5.2.15 is the second reader", "DESIGN.md §3 C13"),
+         "a mismatch counts only if the same form and value round-trips with bash on both sides; values are valid UTF-8 without NUL; bash 5.2.15 is the second reader", "DESIGN.md §3 C13 (design) and §8 (as built)"),
 })
 
 CHECKS.update({
  "C11": ("property testing over generated pipelines with forced stage-start schedules (feature-gated pause points); differential oracle vs bash 5.2.15 on the data that arrives (length + checksum), PIPESTATUS and $?, with a three-strikes hang policy",
          "4k (quick) / 40k (thorough) pipelines of 2-4 stages over 6 producer, 8 filter and 9 consumer kinds (externals, brace groups, subshells, functions, while-read loops, early-exit consumers), payloads 0 B .. 1 MiB (quick) / 4 MiB (thorough) incl. 65535/65536/65537, forced exit statuses, pipefail, 7 pause-point schedules; $( ) around pipelines with trailing-newline variants; several reads sharing one descriptor. Exploration.",
-         "bash 5.2.15 reference; with an early-exit consumer only the consumer's output and $? are compared and pipefail is off (upstream statuses are timing-dependent in bash too); a hang counts only when bash needed < 1/20 of the 8 s limit and brush exceeded it three times (else inconclusive)", "DESIGN.md §3 C11"),
+         "bash 5.2.15 reference; with an early-exit consumer only the consumer's output and $? are compared and pipefail is off (upstream statuses are timing-dependent in bash too); a hang counts only when bash needed < 1/20 of the 8 s limit and brush exceeded it three times (else inconclusive)", "DESIGN.md §3 C11 (design) and §8 (as built)"),
 })
 
 CHECKS.update({
  "C17": ("history-style property testing: generated sequences of job launches, foreground commands, sleeps, `jobs` queries and waits, run on 1/2/all CPUs with pause-point schedules; invariants over the observed history (happens-before of job effects vs the line after wait, exactly-once effects, distinct job numbers)",
          "2.5k (quick) / 40k (thorough) histories of up to 12 operations with 1-8 jobs of 6 kinds (external, brace group, pipeline, subshell, function, if) launched from top level, function, loop or group, durations from {0,10,30,60,120} ms so that finishing orders vary, waits of three kinds, final wait; every invariant checked on brush, and on bash when brush fails one (it must hold there). Exploration.",
-         "durations are real sleeps; invariants are timing-independent; bash 5.2.15 used as a guard only", "DESIGN.md §3 C17"),
+         "durations are real sleeps; invariants are timing-independent; bash 5.2.15 used as a guard only", "DESIGN.md §3 C17 (design) and §8 (as built)"),
 })
 
 CHECKS.update({
  "C01": ("fuzz-style property testing with a crash/hang oracle: boundary-value command templates, deep nesting, and mutants of the repository's own test scripts executed by brush (unprivileged, sandboxed); exhaustive short strings, fragment concatenations and corpus mutants through the library entry points in process",
          "20k (quick) / 400k (thorough) template and nesting cases and 3k/120k corpus mutants executed; in process every string up to length 3 (quick, 30.8k) / 4 (thorough, 954k) over a 31-character metacharacter alphabet, 40k/1.5M fragment lines, 20k/600k corpus mutants, 12k/300k templates through tokenizer (4 option sets), program parser and printer, word/brace/here-document/arithmetic/pattern/prompt/test/key-binding parsers and pattern matching, 4k/100k lines through the completion entry point at a spread of cursor positions. Oracle: no panic, abort, fatal signal or worker death; no in-process call over 4 s; no hang where bash ends within 1.5 s and brush twice exceeds 12 s. Exhaustive up to the length bound, exploration beyond.",
-         "texts naming commands or paths outside the sandbox's allow-list are not executed; a stack overflow counts only if bash survives the same text (unbounded recursion kills bash too); syntax highlighting is C19's subject; nesting depth 64 is reached by templates and by the repeat-64 mutation", "DESIGN.md §3 C01"),
+         "texts naming commands or paths outside the sandbox's allow-list are not executed; a stack overflow counts only if bash survives the same text (unbounded recursion kills bash too); syntax highlighting is C19's subject; nesting depth 64 is reached by templates and by the repeat-64 mutation", "DESIGN.md §3 C01 (design) and §8 (as built)"),
 })
 
 NOT_YET = {}
@@ -134,7 +134,7 @@ m = {
  },
  "engines": [
    {"name": "bvengine", "path": "engine/", "serves_properties": sorted(CHECKS), "kind_free_text": "process-level property-based testing: proptest generators, sandboxed brush/bash runs, differential / model / metamorphic oracles, shrinking, replay"},
-   {"name": "bvinproc", "path": "inproc/", "serves_properties": [p for p in sorted(CHECKS) if p in ("C01","C07","C08","C12","C14","C15","C18","C19","C20")], "kind_free_text": "in-process property-based testing against the /repo crates (parser, patterns, arithmetic, highlighter, history)"},
+   {"name": "bvinproc", "path": "inproc/", "serves_properties": [p for p in sorted(CHECKS) if p in ("C01","C07","C08","C14","C15","C19","C20")], "kind_free_text": "in-process property-based testing against the /repo crates (tokenizer, parsers, parse caches, patterns, arithmetic, printer, highlighter, completion, history)"},
  ],
  "checks": [],
  "not_applicable": [],
